@@ -8,6 +8,7 @@ use crate::output::{Digits, NumberParts};
 use crate::runtime::Show;
 use crate::types::{BigInt, BigRat, Numeric};
 use serde_derive::{Deserialize, Serialize};
+use std::convert::TryFrom;
 use std::fmt;
 use std::ops::{Add, Div, Mul, Neg, Sub};
 
@@ -321,7 +322,11 @@ impl Number {
     /// units, and possibly apply SI prefixes.
     pub fn prettify(&self, context: &Context) -> Number {
         let unit = self.pretty_unit(context);
-        if let Some(orig) = unit.as_single() {
+        // SI prefixes are raised to the unit's exponent, which takes an i32
+        let single = unit
+            .as_single()
+            .filter(|orig| i32::try_from(orig.1).is_ok());
+        if let Some(orig) = single {
             use std::collections::HashSet;
             let prefixes = [
                 "milli", "micro", "nano", "pico", "femto", "atto", "zepto", "yocto", "kilo",
